@@ -156,6 +156,24 @@ def common_includes(arch):
     return inc
 
 
+def strip_mem_preds(o, env):
+    """remove the bodies of the five pointer-disjointness predicates (replaced by shims)"""
+    o2 = o[:-3] + ".nopred.gb"
+    with _cache_guard:
+        lk = _cache_locks.setdefault(o2, threading.Lock())
+    with lk:
+        if os.path.exists(o2):
+            return o2
+        cmd = ["goto-instrument"]
+        for p in MEM_PREDS:
+            cmd += ["--remove-function-body", p]
+        rc, out, err, _, _ = slot_sh(cmd + [o, o2 + ".part"], timeout=120, env=env)
+        if rc != 0:
+            raise Infra("remove-function-body failed: %s" % (err or out)[-800:])
+        os.rename(o2 + ".part", o2)
+    return o2
+
+
 def build_goto(g, wd, env, pid="X"):
     rw = apply_rewrites(g, wd)
     cfg = (["-DNDEBUG"] if g["ndebug"] else []) + (["-DSAFE_FAST"] if g["fast"] else [])
@@ -170,8 +188,6 @@ def build_goto(g, wd, env, pid="X"):
         units.append((os.path.join(VERIF, s), hdefs))
     for s in g["srcs"]:
         extra = list(sdefs)
-        if s.endswith("core/mem.c") and not g["no_shims"]:
-            extra += ["-D%s=%s_real" % (p, p) for p in MEM_PREDS]
         if s.endswith("core/util.c") and not g["no_shims"]:
             extra += ["-DutilAssert=utilAssert_real"]
         units.append((rw.get(s, os.path.join(REPO, s)), extra))
@@ -187,6 +203,8 @@ def build_goto(g, wd, env, pid="X"):
                 raise Infra("goto-cc failed on %s: %s" % (path, (err or out)[-1500:]))
         else:
             o = cached_compile(pid, path, flags, env)
+            if path.endswith("core/mem.c") and not g["no_shims"]:
+                o = strip_mem_preds(o, env)
         objs.append(o)
     a = os.path.join(wd, "a.gb")
     cmd = ["goto-cc"] + (["-m32"] if g["arch"] == 32 else []) + ["--function", g["entry"]] + objs + ["-o", a]
@@ -561,7 +579,7 @@ def run_group(pid, g, tier, seed, keep=False):
             ids = [m.group(1) for m in re.finditer(r"^Loop (\S+):", lout, re.M)]
             g = dict(g)
             g["unwindset"] = list(g["unwindset"]) + ["%s:%d" % (i, g["spec_unwind"]) for i in ids
-                                                     if re.match(r"^(h_|r_|mon_|spec_)", i)]
+                                                     if re.match(r"^(h_|r_|o_|mon_|spec_)", i)]
         cr = run_cbmc(g, binary, env)
         R["backend_used"] = cr["backend"]
         R["solver_wall_s"] = round(cr["wall"], 2)
